@@ -262,8 +262,13 @@ def check_hmac_keys(ctx, P):
                     if "arg2" in ops:
                         okx = True
     ctx.check(okl and okx, "derive-key", "coverage", "derive_key xors the mask into every byte (one iter_mut loop over the whole key, no early exit)", "derive_key does not xor the mask into every byte of the key block (%s)" % ([l["chain"] for l in loops]), where=dk.where(), key="derive-key:coverage")
-    # create_keys
-    ck = P.fn("hmac::create_keys")
+    # key flow: the function that derives both pads (a helper `create_keys`, or Hmac::new itself when the helper is inlined)
+    nf = P.fn("hmac::Hmac::<D>::new")
+    cands = [f for f in P.fns.values() if f.path.startswith("hmac::") and len(f.calls_to(r"^hmac::derive_key$")) == 2]
+    if len(cands) != 1:
+        ctx.fail("create-keys", "ipad/opad", "expected exactly one function in hmac that derives the two pads with derive_key, found %s" % [f.path for f in cands], where=nf.where(), key="create-keys")
+        return
+    ck = cands[0]
     dks = ck.calls_to(r"^hmac::derive_key$")
     masks = {}
     for c in dks:
@@ -272,47 +277,59 @@ def check_hmac_keys(ctx, P):
         mk = ck.expr(c.args[1])
         masks[v[0] if v else None] = mk[1] if mk[0] == "const" else None
     ek_c = ck.calls_to(r"^hmac::expand_key$")
-    cl = [c for c in ck.calls() if c.name().endswith("Clone>::clone") or c.name().endswith("::clone")]
-    ret = ck.local_expr(0)
+    cl = [c for c in ck.calls() if (c.name().endswith("Clone>::clone") or c.name().endswith("::clone")) and aead_var(ck, c.args[0]) in masks]
     ok = len(ek_c) == 1 and len(cl) == 1 and len(dks) == 2
+    ik = okl_ = None
     if ok:
         ik = ek_c[0].dest[0]
         okl_ = cl[0].dest[0]
         ok = masks.get(ik) == 0x36 and masks.get(okl_) == 0x5c and aead_var(ck, cl[0].args[0]) == ik
-        ok = ok and ret[0] == "agg" and [aead_var2(x) for x in ret[2]] == [ik, okl_]
-        ok = ok and cn(ck, ek_c[0].args[0]) == "arg1" and cn(ck, ek_c[0].args[1]) == "arg2"
-    ctx.check(ok, "create-keys", "ipad/opad", "i_key = K' ^ 0x36.., o_key = clone(K') ^ 0x5c.., returned as (i_key, o_key)", "create_keys does not derive (K' ^ ipad, K' ^ opad): masks %s" % masks, where=ck.where(), key="create-keys")
+        ok = ok and cn(ck, ek_c[0].args[1]) == "arg2" and cn(ck, ek_c[0].args[0]) in ("arg1", "v:digest")
+        if ck.id != nf.id:
+            ret = ck.local_expr(0)
+            ok = ok and ret[0] == "agg" and [aead_var2(x) for x in ret[2]] == [ik, okl_]
+    ctx.check(ok, "create-keys", "ipad/opad", "i_key = K' ^ 0x36.., o_key = clone(K') ^ 0x5c.. (in %s)" % ck.path.split("::")[-1], "%s does not derive (K' ^ ipad, K' ^ opad): masks %s" % (ck.path, masks), where=ck.where(), key="create-keys")
     # Hmac::new: absorb i_key first; store keys in the right fields
-    nf = P.fn("hmac::Hmac::<D>::new")
-    cks = nf.calls_to(r"^hmac::create_keys$")
     ins = nf.calls_to(D_INPUT)
-    ok = len(cks) == 1 and len(ins) == 1 and nf.dominates(cks[0].bb, ins[0].bb)
-    if ok:
+    agg = [s_ for b_ in sorted(nf.reachable()) for s_ in nf.stmts(b_) if s_[0] == "=" and s_[2][0] == "agg" and s_[2][1][0] == "adt" and s_[2][1][1] == "hmac::Hmac"]
+    ok2 = ok and len(ins) == 1 and len(agg) == 1
+    if ok2:
         w = rules.window(nf, nf.expr(ins[0].args[1]))
-        agg = [s for b in sorted(nf.reachable()) for s in nf.stmts(b) if s[0] == "=" and s[2][0] == "agg" and s[2][1][0] == "adt" and s[2][1][1] == "hmac::Hmac"]
-        ok = len(agg) == 1 and w is not None and w[1] == ((), 0) and w[2] is None
-        if ok:
-            d = dict(zip(agg[0][2][1][4], [nf.expr(o) for o in agg[0][2][2]]))
+        ok2 = w is not None and w[1] == ((), 0) and w[2] is None
+        d = dict(zip(agg[0][2][1][4], [nf.expr(o) for o in agg[0][2][2]]))
+        fin0 = const_val(agg[0][2][2][agg[0][2][1][4].index("finished")]) == 0
+        if ck.id == nf.id:
+            # derived in place: the absorbed buffer and the stored fields are the two variables themselves
+            absorbed = None
+            for x in walk(nf.expr(ins[0].args[1])):
+                if x[0] == "var" and x[1] in (ik, okl_):
+                    absorbed = x[1]
+            last_dk = max(nf.rpo().index(c.bb) for c in dks)
+            ok2 = ok2 and absorbed == ik and aead_var2(d["i_key"]) == ik and aead_var2(d["o_key"]) == okl_ and fin0 and all(nf.dominates(c.bb, ins[0].bb) for c in dks)
+        else:
+            cks = nf.calls_to("^" + re.escape(ck.path) + "$")
+            ok2 = ok2 and len(cks) == 1 and nf.dominates(cks[0].bb, ins[0].bb)
+
             def tup_field(e):
-                # (i_key, o_key) = create_keys(..): field index of the tuple
                 for x in walk(e):
                     if x[0] == "field" and x[1][0] in ("var", "call"):
                         return x[2]
                 return None
-            ikf = tup_field(d["i_key"])
-            okf = tup_field(d["o_key"])
-            absorbed = None
-            for x in walk(nf.expr(ins[0].args[1])):
-                if x[0] == "call" and rules.INDEX_FN.search(x[1]):
-                    base = x[2][0]
-                    absorbed = tup_field(base)
-                    if absorbed is None:
-                        for y in walk(base):
-                            if y[0] == "var":
-                                for b, e in rules.var_defs(nf, y[1]):
-                                    absorbed = tup_field(e)
-            ok = ikf == 0 and okf == 1 and absorbed == 0 and const_val(agg[0][2][2][agg[0][2][1][4].index("finished")]) == 0 and cn(nf, ins[0].args[0]) in ("arg1",)
-    ctx.check(ok, "hmac-new", "absorb-ikey", "Hmac::new stores (i_key, o_key), absorbs i_key into the digest, finished = false", "Hmac::new does not absorb the inner key first / stores the keys wrongly", where=nf.where(), key="hmac-new")
+            if ok2:
+                ikf = tup_field(d["i_key"])
+                okf = tup_field(d["o_key"])
+                absorbed = None
+                for x in walk(nf.expr(ins[0].args[1])):
+                    if x[0] == "call" and rules.INDEX_FN.search(x[1]):
+                        base = x[2][0]
+                        absorbed = tup_field(base)
+                        if absorbed is None:
+                            for y in walk(base):
+                                if y[0] == "var":
+                                    for b_, e_ in rules.var_defs(nf, y[1]):
+                                        absorbed = tup_field(e_)
+                ok2 = ikf == 0 and okf == 1 and absorbed == 0 and fin0 and cn(nf, ins[0].args[0]) in ("arg1",)
+    ctx.check(ok2, "hmac-new", "absorb-ikey", "Hmac::new stores (i_key, o_key), absorbs i_key into the digest, finished = false", "Hmac::new does not absorb the inner key first / stores the keys wrongly", where=nf.where(), key="hmac-new")
 
 
 def aead_var(fn, op):
